@@ -107,6 +107,24 @@ Theorem C04_ranges_has_is_membership : forall incl rs n,
 Proof. exact ranges_has_is_membership_lemma. Qed.
 Print Assumptions C04_ranges_has_is_membership.
 
+(* TextName() of a field agrees with the runtime: the bracketed full name for an extension; the message name for a
+   group-like field (group kind, message declared in the field's own scope, field name = the lower-cased message
+   name); the field's own name otherwise. scopes_by_name: for a non-extension field the runtime's same-file and
+   same-parent-descriptor tests hold exactly when the two parent names are equal (full names are unique in a link). *)
+Theorem C04_text_name_eq_runtime : forall f nm same_file same_scope,
+  wf_field f = true -> scopes_by_name f nm same_file same_scope = true ->
+  text_name f nm = rt_text_name f nm same_file same_scope.
+Proof. exact text_name_eq_runtime_lemma. Qed.
+Print Assumptions C04_text_name_eq_runtime.
+
+(* Group-likeness needs the exact lower-cased spelling: a field whose name is not the lower-cased message name (equal
+   to the message name only when case is ignored, say) has its own name as text name on both sides. *)
+Theorem C04_text_name_not_lowered : forall f nm same_file same_scope,
+  n_name nm <> to_lower (n_msg_name nm) -> f_is_ext f = false ->
+  text_name f nm = n_name nm /\ rt_text_name f nm same_file same_scope = n_name nm.
+Proof. exact text_name_not_lowered_lemma. Qed.
+Print Assumptions C04_text_name_not_lowered.
+
 (* The code before the repairs (IsClosed == CLOSED, RequiredNumbers by label) is refuted in Proofs/Features.v:
    is_closed_old_eq_runtime_refuted_lemma, required_numbers_old_eq_runtime_refuted_lemma (with the partial
    results it did satisfy). *)
@@ -136,4 +154,17 @@ Example C04_nonvacuous_ranges :
   let rs := [(1000, 2000); (100, 200); (500, 600)]%Z in
   ranges_valid_b false rs = true /\ lk_has false rs 1500%Z = true /\ rt_has false rs 1500%Z = Some true /\
   rt_search false 3 rs 1500%Z = Some false /\ lk_has false rs 200%Z = false /\ rt_has true rs 200%Z = Some true.
+Proof. vm_compute. repeat split; reflexivity. Qed.
+
+(* non-vacuity for text names: a delimited editions field of a sibling message type MyGroup; named mygroup it is
+   group-like on both sides, named myGroup (equal only ignoring case) it is not *)
+Example C04_nonvacuous_text_name :
+  let f := mkfield ED_2023 LABEL_OPTIONAL TYPE_MESSAGE 1 false false false None false false
+             (CNest (mkfs None None None None (Some ME_DELIMITED) None) (CNest fs_empty (CFile fs_empty))) in
+  let g := mknames "mygroup" "p.Outer.mygroup" "p.Outer" "MyGroup" "p.Outer" in
+  let h := mknames "myGroup" "p.Outer.myGroup" "p.Outer" "MyGroup" "p.Outer" in
+  wf_field f = true /\ kind f = TYPE_GROUP /\
+  text_name f g = "MyGroup"%string /\ rt_text_name f g true true = "MyGroup"%string /\
+  text_name f h = "myGroup"%string /\ rt_text_name f h true true = "myGroup"%string /\
+  scopes_by_name f g true true = true.
 Proof. vm_compute. repeat split; reflexivity. Qed.
